@@ -713,7 +713,9 @@ func (p *Parser) OrCondition() (interface{}, error) {
 	}
 
 	for p.match(OR) {
-		ac := SearchCondition{LHS: ret.(Predicate)}
+		// the left operand is whatever AndCondition produced: a predicate, an
+		// AND term, or a bare value (rejected when evaluated)
+		ac := SearchCondition{LHS: ret}
 		ac.RHS, err = p.OrCondition()
 		if err != nil {
 			return nil, err
@@ -733,7 +735,12 @@ func (p *Parser) AndCondition() (interface{}, error) {
 	}
 
 	for p.match(AND) {
-		ac := BooleanTerm{LHS: ret.(Predicate)}
+		pred, isPredicate := ret.(Predicate)
+		if !isPredicate {
+			// only comparison predicates can be operands of AND
+			return nil, syntaxErr(p.Prev())
+		}
+		ac := BooleanTerm{LHS: pred}
 		ac.RHS, err = p.AndCondition()
 		if err != nil {
 			return nil, err
